@@ -53,6 +53,14 @@ class Ctx:
         self.exhaustive = None
         self.known = [k for k in load_known() if k.get("property") == pid]
         self.notes = []
+        # replay files of an earlier run of this check are stale
+        if os.path.isdir(REPLAY_DIR):
+            for f in os.listdir(REPLAY_DIR):
+                if f.startswith(pid + "_"):
+                    try:
+                        os.remove(os.path.join(REPLAY_DIR, f))
+                    except OSError:
+                        pass
 
     # ------------------------------------------------------------------ accounting
     def add_tlc(self, name, res, count=True):
